@@ -66,13 +66,21 @@ class ChunkSocket(fakenet.FakeSocket):
         super().__init__()
         self.next_k = None
         self.calls = 0
+        self.full = False      # a short write means the transport's buffer is full: until the selector reports the socket writable again
+                               # (writable()), a further send() fails with EAGAIN, as on a non-blocking socket
+
+    def writable(self):
+        self.full = False
 
     def send(self, data):
         if self.closed:
             raise OSError(9, "Bad file descriptor")
         self.calls += 1
+        if self.full and len(data):
+            raise BlockingIOError(11, "Resource temporarily unavailable")
         k = len(data) if self.next_k is None else min(self.next_k, len(data))
         self.sent += data[:k]
+        self.full = k < len(data)
         return k
 
 
@@ -325,6 +333,7 @@ class SendRun:
             sock.next_k = seq.pop(0) if seq else None
             return ChunkSocket.send(sock, data)
         sock.send = send
+        sock.writable()
         try:
             self.peer.handle_can_send(sock)
         finally:
@@ -334,6 +343,7 @@ class SendRun:
     def settle(self, limit=10000):
         n = 0
         while self.interest() and n < limit:
+            self.sock.writable()
             self.peer.handle_can_send(self.sock)
             n += 1
 
@@ -395,6 +405,55 @@ def replay_sequential(lens, ops, tid):
             "exc": exc or "", "feasible": True, "miner": []}
 
 
+def replay_calls(lens, net_frames, miner_frames, hist, tid):
+    """A serial behaviour of SendPath (Locked: every call is one critical section) as whole calls: send_message from the thread the
+    behaviour names (the miner's on a second real thread), handle_can_send with the behaviour's chunking.  Needs no source-line mapping.
+    -> trace for TraceSendPath, judged like a two-thread schedule (final state)."""
+    import threading
+    run = SendRun(lens, tid)
+    todo = {"net": list(net_frames), "miner": list(miner_frames)}
+    calls = []
+    for st in hist:
+        if st["a"] == "send":
+            if todo[st["t"]]:
+                calls.append(["send", st["t"], todo[st["t"]].pop(0)])
+        elif st["a"] == "cansend":
+            calls.append(["cansend", st["t"], []])
+        elif st["a"] == "H1" and calls and calls[-1][0] == "cansend":
+            calls[-1][2].append(10 ** 6 if st["k"] >= st.get("n", 0) else st["k"])
+    exc = ""
+    for cl in calls:
+        err = []
+
+        def job(cl=cl):
+            try:
+                if cl[0] == "send":
+                    run.send(cl[2])
+                elif run.interest():
+                    run.can_send(cl[2])
+            except Exception as e:      # an exception of the code under test is an observation
+                err.append(repr(e))
+        if cl[1] == "miner":
+            th = threading.Thread(target=job, daemon=True)
+            th.start()
+            th.join(10)
+            if th.is_alive():
+                err.append("the miner thread's send_message did not return")
+        else:
+            job()
+        if err and not exc:
+            exc = err[0]
+    try:
+        for t in ("net", "miner"):
+            while todo[t]:
+                run.send(todo[t].pop(0))
+        run.settle()
+    except Exception as e:
+        exc = exc or repr(e)
+    return {"id": tid, "mode": "sched", "lens": list(lens), "sent": run.queued_calls, "events": [], "final": run.final(), "exc": exc,
+            "feasible": True, "why": "", "executed": len(calls), "miner": list(miner_frames), "calls": calls}
+
+
 def replay_schedule(lens, net_frames, miner_frames, hist, tid, stops):
     """hist: [{t, a, k}] from MC_SendPath (a in send / cansend / S1.. / H1..) -> trace for TraceSendPath (final state judged)."""
     run = SendRun(lens, tid)
@@ -409,7 +468,10 @@ def replay_schedule(lens, net_frames, miner_frames, hist, tid, stops):
         return lambda: run.peer.send_message(run.msgs[f])
 
     def job_cansend():
-        return lambda: run.peer.handle_can_send(sock)
+        def j():
+            sock.writable()
+            run.peer.handle_can_send(sock)
+        return j
 
     try:
         for i, st in enumerate(hist):
